@@ -253,7 +253,7 @@ def check_store(model, rep, sx: SX, tables):
                     bad = (e[4], f'stores a non-numeric value {sx.show(e[3])[:60]}')
                     continue
                 atoms = t.atoms()
-                value_atoms = [a for a in atoms if a.endswith('__value')]
+                value_atoms = [a for a in atoms if a.endswith('__value') or a.endswith('.value')]
                 # unchanged value (no arithmetic)?
                 unchanged = len(t.n.t) == 1 and t.d.is_const() and len(value_atoms) == 1 and \
                     t.eq(Rat.atom(value_atoms[0]))
